@@ -49,6 +49,19 @@ def run(ctx):
             skipped = any(op == '==' and SK in (a, b) and F.resolve_key(a if b == SK else b).endswith('.kind') or
                           (op == '==' and SK in (a, b) and (a if b == SK else b).endswith('.kind')) for (op, a, b) in fs)
             notskipped = any(op == '!=' and SK in (a, b) and (a if b == SK else b).endswith('.kind') for (op, a, b) in fs)
+            if not skipped and not notskipped:
+                # reached from several case labels of a switch over the kind: on every path the kind is one of the others
+                try:
+                    per_path = F.path_facts([rn], cap=2000)
+                except Exception:
+                    per_path = []
+
+                def _other(pf):
+                    return any((op == '==' and (a.endswith('.kind') or b.endswith('.kind')) and re.match(r'^n:\d+$', a if b.endswith('.kind') else b)
+                                and (a if b.endswith('.kind') else b) != SK) or
+                               (op == '!=' and SK in (a, b) and (a if b == SK else b).endswith('.kind')) for (op, a, b) in pf)
+                if per_path and all(_other(pf) for pf in per_path):
+                    notskipped = True
             if skipped:
                 n_sk += 1
                 ctx.check(one_lookup and fld == 'trans', 'C06-convert', 'SKIPPED -> the transition instant (trans)', rn.ast,
